@@ -564,7 +564,7 @@ pub fn run_stages<S: Stages>(st: &'static S, workers: usize, dir: &std::path::Pa
         let name = st.stage_name(stage);
         eprintln!("[C15] stage {name}: {total} cases ...");
         let mut res = StageResult { name: name.clone(), ..Default::default() };
-        let chunk = (total / (n as u64 * 24)).clamp(1, 50_000);
+        let chunk = (total / (n as u64 * 128)).clamp(1, 50_000);
         let mut queue: Vec<(u64, u64)> = Vec::new();
         let mut p = 0;
         while p < total {
@@ -922,7 +922,14 @@ pub fn run_isolated(f: impl FnOnce() -> String, deadline: Duration) -> Result<St
             exited = true;
             continue;
         }
-        if t.elapsed() > deadline {
+        // the deadline counts the child's CPU time (a loaded machine must not turn a slow case into a hang);
+        // wall time only bounds a child that is blocked
+        let cpu = if t.elapsed() > deadline { cpu_seconds(pid) } else { None };
+        let over = match cpu {
+            Some(c) => c > deadline.as_secs_f64() || t.elapsed() > deadline * 12,
+            None => t.elapsed() > deadline * 12,
+        };
+        if over {
             unsafe {
                 libc::kill(pid, libc::SIGKILL);
                 libc::waitpid(pid, &mut status, 0);
